@@ -38,6 +38,8 @@ type facts struct {
 	elseUpdates      bool
 	reconOnSubscribe bool
 	reconImplicit    bool
+	reconEveryTime   bool // the handler reconciliationCall returns makes the call on EVERY invocation
+	reconEveryDetail string
 	trackBeforeRecon bool
 	fidSeeded        bool
 	fidWrittenBack   bool
@@ -48,7 +50,7 @@ type facts struct {
 	failoverDefault  bool
 	failoverValue    string
 	partitionAware   bool
-	killWrites       string   // "filter-then-append" | "other"
+	killWrites       string // "filter-then-append" | "other"
 	killWritesDetail string
 	rosterWriters    []string // every write to the roster in package core/task: "<function>:<method>", sorted
 	problems         []string
@@ -555,6 +557,14 @@ func schedulerFacts(sched, state *ast.File, ft *facts) {
 			}
 			return true
 		})
+		// … on EVERY SUBSCRIBED event the handler is invoked for: reconciliationCall is nothing but
+		// `return func(…) error { <straight-line code>; return … }` — no state declared next to the literal that
+		// could outlive one event (a sync.Once, a flag, a counter, a timestamp), no test, loop, early return,
+		// go/defer or nested function literal inside it. The model's `read` of a SUBSCRIBED always logs a RECONCILE
+		// (Cfg.reconcileOnSubscribed); a handler that asks "only the first time", "only if …", "at most every …" is
+		// code the model does not describe.
+		ft.reconEveryDetail = reconEveryTime(fd)
+		ft.reconEveryTime = ft.reconEveryDetail == ""
 	} else {
 		ft.problems = append(ft.problems, "scheduler.go: reconciliationCall not found")
 	}
@@ -594,6 +604,52 @@ func schedulerFacts(sched, state *ast.File, ft *facts) {
 		b = strings.Contains(bodyText(fd), "callrules.WithFrameworkID(store.GetIgnoreErrors(state.fidStore))")
 	}
 	ft.fidFeedsCalls = a && b
+}
+
+// reconEveryTime returns "" if fd is `return func(…) … { straight-line statements }`, else what is in the way.
+func reconEveryTime(fd *ast.FuncDecl) string {
+	if len(fd.Body.List) != 1 {
+		return fmt.Sprintf("reconciliationCall has %d statements, not the single `return func(…) error {…}`: state next to the handler can outlive a SUBSCRIBED event", len(fd.Body.List))
+	}
+	ret, ok := fd.Body.List[0].(*ast.ReturnStmt)
+	if !ok || len(ret.Results) != 1 {
+		return "reconciliationCall does not just return its handler"
+	}
+	lit, ok := ret.Results[0].(*ast.FuncLit)
+	if !ok {
+		return "reconciliationCall does not return a function literal: " + clip(es(ret.Results[0]))
+	}
+	for i, s := range lit.Body.List {
+		switch st := s.(type) {
+		case *ast.AssignStmt, *ast.ExprStmt, *ast.DeclStmt:
+		case *ast.ReturnStmt:
+			if i != len(lit.Body.List)-1 {
+				return "early return in the handler"
+			}
+			_ = st
+		default:
+			return fmt.Sprintf("the handler is not straight-line code (%T at its top level): the RECONCILE call is conditional", s)
+		}
+	}
+	nested, calls := 0, 0
+	ast.Inspect(lit.Body, func(x ast.Node) bool {
+		switch c := x.(type) {
+		case *ast.FuncLit:
+			nested++
+		case *ast.CallExpr:
+			if es(c.Fun) == "calls.CallNoData" {
+				calls++
+			}
+		}
+		return true
+	})
+	if nested > 0 {
+		return "the handler contains a function literal: the RECONCILE call is not made in line"
+	}
+	if calls != 1 {
+		return fmt.Sprintf("%d calls.CallNoData in the handler", calls)
+	}
+	return ""
 }
 
 func bodyText(fd *ast.FuncDecl) string {
@@ -725,6 +781,13 @@ func genFacts(repo string) (string, error) {
 	wb("the else branch of that `if` hands the update to m.updateTaskStatus (so a KILLed reconciliation update is not also applied to the roster)", "elseUpdatesStatus", ft.elseUpdates)
 	wb("go/ast, buildEventHandler: the rule set for scheduler.Event_SUBSCRIBED contains HandleF(state.reconciliationCall())", "reconcileOnSubscribed", ft.reconOnSubscribe)
 	wb("go/ast, reconciliationCall: calls.CallNoData(ctx, state.cli, calls.Reconcile(calls.ReconcileTasks(nil))) — an IMPLICIT reconciliation", "reconcileIsImplicit", ft.reconImplicit)
+	wb("go/ast, reconciliationCall is exactly `return func(ctx, e) error { <assignments, call statements>; return … }` with one calls.CallNoData in line: nothing next to the handler outlives a SUBSCRIBED event (no sync.Once, flag, counter), no test, loop, early return, go/defer or nested function literal — the RECONCILE goes out on EVERY SUBSCRIBED"+
+		func() string {
+			if ft.reconEveryDetail != "" {
+				return " [NOT SO: " + strings.NewReplacer("\n", " ", "-/", "- /").Replace(ft.reconEveryDetail) + "]"
+			}
+			return ""
+		}(), "reconcileOnEverySubscribed", ft.reconEveryTime)
 	wb("go/ast: controller.TrackSubscription(fidStore, viper.GetDuration(\"mesosFailoverTimeout\")) precedes it in the same rule set (the id is stored before the RECONCILE goes out)", "trackSubscriptionBeforeReconcile", ft.trackBeforeRecon)
 	wb("go/ast, NewManager: `if v, err := the.ConfSvc().GetRuntimeEntry(A, B); err == nil { store.SetOrPanic(fidStore)(v) }` with (A, B) the key written by the Set hook", "fidSeededFromRuntimeEntry", ft.fidSeeded)
 	wb("go/ast, NewManager: fidStore := store.DecorateSingleton(store.NewInMemorySingleton(), store.DoSet().AndThen(func(_, v, _) { … the.ConfSvc().SetRuntimeEntry(A, B, v) … })) and that store is the one passed to NewScheduler", "fidWrittenBackToRuntimeEntry", ft.fidWrittenBack)
